@@ -3,7 +3,7 @@
 use crate::run::{CaseResult, Ctx, Gen, Obs};
 use crate::util::Src;
 
-pub const RULE: &str = "Configurations `arbitrary` and all-features+`arbitrary`. Inputs of length 0..=4096 (layout-aware ones up to about 7.4 kB): all-zero, all-0xFF and every single-byte-repeated pattern (256 patterns x a ladder of lengths; thorough: every length), and proptest byte strings assembled from a weighted mix of uniform bytes, ASCII, well-formed 2/3/4-byte UTF-8 sequences and ill-formed pieces (lone continuation bytes, truncated leads, overlongs, surrogates, 0xF8..0xFF), with length-prefix-like words biased towards capacities. plus layout-aware inputs that follow the order in which the hand-written Arbitrary impls consume data (variant selector, 8-byte little-endian length, text window, lengths of borrowed strings at the end of the input) with the declared length at capacity-3..capacity+7 and the window end before, inside or after a multi-byte character whose remaining bytes follow. Each input is fed to <ctap1::Request>, <ctap2::Request> and <authenticator::Request as Arbitrary>::arbitrary and, separately, ::arbitrary_take_rest. Oracle: no panic/abort; Err is NotEnoughData; Ok(req): a harness-side walker visits every public field - every String<N> and &str passes core::str::from_utf8 on its raw bytes, every String/Bytes/Vec is within its capacity, every borrowed member (&[u8], &str, &[u8; N], &ByteArray<N>) points into the input buffer it borrows from, known formats <= 2, filtered parameters <= 2 with alg in {-7,-8}; Debug-formatting, clone and == clone complete and agree; dispatching through the C10 recording mock returns. Non-trivial: an Ok result whose input contained a non-ASCII byte (the unchecked UTF-8 path may have been taken) or which holds a bounded field at capacity; distinct by (entry point, input).";
+pub const RULE: &str = "Configurations `arbitrary` and all-features+`arbitrary`. Inputs of length 0..=4096 (layout-aware ones up to about 7.4 kB): all-zero, all-0xFF and every single-byte-repeated pattern (256 patterns x a ladder of lengths; thorough: every length), and proptest byte strings assembled from a weighted mix of uniform bytes, ASCII, well-formed 2/3/4-byte UTF-8 sequences and ill-formed pieces (lone continuation bytes, truncated leads, overlongs, surrogates, 0xF8..0xFF), with length-prefix-like words biased towards capacities. plus layout-aware inputs that follow the order in which the hand-written Arbitrary impls consume data (variant selector, 8-byte little-endian length, text window, lengths of borrowed strings at the end of the input) with the declared length at capacity-3..capacity+7 and the window end before, inside or after a multi-byte character whose remaining bytes follow. Each input is fed to <ctap1::Request>, <ctap2::Request> and <authenticator::Request as Arbitrary>::arbitrary and, separately, ::arbitrary_take_rest. Oracle: no panic/abort; Err is NotEnoughData; Ok(req): a harness-side walker visits every public field - every String<N> and &str passes core::str::from_utf8 on its raw bytes, every String/Bytes/Vec is within its capacity, every borrowed member (&[u8], &str, &[u8; N], &ByteArray<N>) points into the input buffer it borrows from, known formats <= 2, filtered parameters <= 2 with alg in {-7,-8}; Debug-formatting, clone and == clone complete and agree; == against a sibling value generated from the same input with its later bytes inverted is symmetric and agrees with the Debug renderings; dispatching through the C10 recording mock returns. Non-trivial: an Ok result whose input contained a non-ASCII byte (the unchecked UTF-8 path may have been taken) or which holds a bounded field at capacity; distinct by (entry point, input).";
 pub const ASSUMPTIONS: &[&str] = &[
     "VendorOperation's derived Arbitrary can yield codes outside 0x40..0x7F; the statement's validity list does not include the vendor range, so it is recorded, not asserted",
     "an invalid str that happens not to crash is only visible to from_utf8 on the raw bytes (and to Miri in the thorough tier)",
@@ -254,6 +254,31 @@ mod with_arb {
         Ok(())
     }
 
+    /// two generated values that are (usually) NOT equal: comparison must work in both directions,
+    /// agree with itself and agree with the Debug renderings
+    fn check_pair<T: core::fmt::Debug + PartialEq>(what: &str, a: &T, b: &T) -> W {
+        let ab = a == b;
+        let ba = b == a;
+        if ab != ba {
+            return Err(format!("{}: == is not symmetric", what));
+        }
+        let same_text = format!("{:?}", a) == format!("{:?}", b);
+        if ab != same_text {
+            return Err(format!("{}: == says {} but the Debug renderings are {}", what, ab, if same_text { "identical" } else { "different" }));
+        }
+        Ok(())
+    }
+
+    /// the same input with every byte after the first `keep` inverted (same variant selectors,
+    /// different contents of equal length): a sibling value to compare with
+    fn sibling_input(data: &[u8], keep: usize) -> Vec<u8> {
+        // the tail is kept as well in every other case: lengths of borrowed members are read from the
+        // END of the input, so this yields members of equal length with different contents
+        let tail_keep = if (data.len() / 4) % 2 == 0 { 16 } else { 0 };
+        let end = data.len().saturating_sub(tail_keep);
+        data.iter().enumerate().map(|(i, b)| if i < keep || i >= end { *b } else { !*b }).collect()
+    }
+
     /// a recording authenticator (independent of C10's, kept small)
     struct Sink(u32);
     impl ctap2::Authenticator for Sink {
@@ -369,6 +394,29 @@ mod with_arb {
         obs.sub_evals += 1;
         if let Err((k, m)) = res_rest {
             return Err(fail(&k, m));
+        }
+        // compare with a sibling generated from related bytes (values of the same shape that differ)
+        {
+            let keep = [5usize, 9, 13, 24][data.len() % 4];
+            let other = sibling_input(data, keep);
+            let pair: W = match entry {
+                0 => match (<ctap1::Request as Arbitrary>::arbitrary(&mut Unstructured::new(data)), <ctap1::Request as Arbitrary>::arbitrary(&mut Unstructured::new(&other))) {
+                    (Ok(a), Ok(b)) => check_pair("ctap1::Request", &a, &b),
+                    _ => Ok(()),
+                },
+                1 => match (<ctap2::Request as Arbitrary>::arbitrary(&mut Unstructured::new(data)), <ctap2::Request as Arbitrary>::arbitrary(&mut Unstructured::new(&other))) {
+                    (Ok(a), Ok(b)) => check_pair("ctap2::Request", &a, &b),
+                    _ => Ok(()),
+                },
+                _ => match (<authenticator::Request as Arbitrary>::arbitrary(&mut Unstructured::new(data)), <authenticator::Request as Arbitrary>::arbitrary(&mut Unstructured::new(&other))) {
+                    (Ok(a), Ok(b)) => check_pair("authenticator::Request", &a, &b),
+                    _ => Ok(()),
+                },
+            };
+            obs.sub_evals += 1;
+            if let Err(m) = pair {
+                return Err(fail("pair-comparison", m));
+            }
         }
         let mut u = Unstructured::new(data);
         let res: Result<(), (String, String)> = match entry {
